@@ -155,21 +155,21 @@ class FakePath:
 
     def read_text(self, encoding: typing.Optional[str] = None, errors: typing.Optional[str] = None, newline: typing.Optional[str] = None) -> str:
         """pathlib.Path.read_text: text mode, universal newlines (CRLF and CR become LF) unless a newline argument is given"""
-        with self.fs.open(self.name, "r", encoding, newline=newline) as f:
+        with self.fs.open(self.name_, "r", encoding, newline=newline) as f:
             return f.read()
 
     def read_bytes(self) -> bytes:
-        with self.fs.open(self.name, "rb") as f:
+        with self.fs.open(self.name_, "rb") as f:
             return f.read()
 
     def write_text(self, data: str, encoding: typing.Optional[str] = None, errors: typing.Optional[str] = None, newline: typing.Optional[str] = None) -> int:
-        with self.fs.open(self.name, "w", encoding) as f:
+        with self.fs.open(self.name_, "w", encoding) as f:
             f.write(data)
         return len(data)
 
     def open(self, mode: str = "r", buffering: int = -1, encoding: typing.Optional[str] = None, errors: typing.Optional[str] = None,
              newline: typing.Optional[str] = None) -> typing.Any:
-        return self.fs.open(self.name, mode, encoding, newline=newline)
+        return self.fs.open(self.name_, mode, encoding, newline=newline)
 
     def is_file(self) -> bool:
         return self.exists()
